@@ -26,6 +26,7 @@ func (sh *syncHead[H]) Head(ctx context.Context, opts ...header.HeadOption[H]) (
 		sh.headCh = doneCh
 	}
 	sh.headMu.Unlock()
+	simYield("sync:syncHead:after-unlock")
 
 	if acquired {
 		head, err := sh.head.Head(ctx, opts...)
